@@ -505,6 +505,105 @@ def judgeC20 (o : Obs) (spinners : Nat) : Verdict :=
         s!"the operation completed before runnable activity {s} got its turn")
   | _, _ => []
 
+/-! ### C16 - collect() / first() -/
+
+/-- per activity of a flow call: its label, its first `tfin` (index, time, code) if any, the value it
+returned (`ret`, else 0 for `None`), the index of its last event -/
+structure FlowAct where
+  label : Int
+  fin : Option (Nat × Rat × Int)
+  value : Int
+  started : Bool
+  last : Nat
+
+def flowActs (o : Obs) (i : Nat) (n : Nat) (base : Int) : List FlowAct :=
+  (List.range n).map (fun (k : Nat) =>
+    let l : Int := base + (k : Int)
+    let evs := (ofLabel o l).filter (·.2 > i)
+    { label := l,
+      fin := (evs.find? (·.1.tag == "tfin")).map (fun p => (p.2, p.1.time, arg p.1 0)),
+      value := ((evs.find? (·.1.tag == "ret")).map (fun p => arg p.1 0)).getD 0,
+      started := !evs.isEmpty,
+      last := (evs.getLast?.map (·.2)).getD 0 })
+
+def ratMax (a b : Rat) : Rat := if a < b then b else a
+
+/-- common clauses once the call has ended at event index `E`: nothing of the activities runs afterwards -/
+def flowAborted (what : String) (acts : List FlowAct) (E : Nat) (tE : Rat) : Verdict :=
+  acts.flatMap (fun x =>
+    fail (x.started && x.last > E) s!"{what}: activity {x.label} still runs code after the call ended at {tE}" ++
+    fail (x.started && (match x.fin with | some f => f.1 > E | none => true))
+      s!"{what}: activity {x.label} was neither finished nor aborted when the call ended at {tE}")
+
+def judgeC16 (o : Obs) : Verdict :=
+  (idx o).flatMap (fun p =>
+    let b := p.1
+    let i := p.2
+    let mine := (ofLabel o b.label).filter (·.2 > i)
+    if b.tag == "cbegin" then
+      let n := (arg b 0).toNat
+      let acts := flowActs o i n (arg b 1)
+      match mine.head? with
+      | none => []
+      | some (e, E) =>
+        let what := s!"collect of activity {b.label} started at {b.time}"
+        let failed := (acts.filterMap (fun x => x.fin.bind (fun f => if f.2.2 == 3 then some f else none)))
+        let firstFail := failed.foldl (fun (m : Option (Nat × Rat × Int)) f => match m with
+          | some g => if f.1 < g.1 then some f else some g
+          | none => some f) none
+        flowAborted what acts E e.time ++
+        (if e.tag == "collected" then
+          let slowest := acts.foldl (fun m x => match x.fin with | some f => ratMax m f.2.1 | none => m) b.time
+          fail (acts.any (fun x => match x.fin with | some f => f.2.2 != 0 | none => true))
+            s!"{what}: returned although not every activity finished normally" ++
+          fail (e.args != acts.map (·.value)) s!"{what}: returned {e.args}, the activities' results in argument order are {acts.map (·.value)}" ++
+          fail (e.time != slowest) s!"{what}: returned at {e.time}, the slowest activity finished at {slowest}"
+        else
+          match firstFail with
+          | some f => fail (e.time != f.2.1) s!"{what}: an activity failed at {f.2.1} but the call ended at {e.time}"
+          | none => [])
+    else if b.tag == "fbegin" then
+      let n := (arg b 0).toNat
+      let cnt := (arg b 1).toNat
+      let brk := arg b 2
+      let base := arg b 3
+      let what := s!"first(count={cnt}) of activity {b.label} over {n} activities started at {b.time}"
+      match mine.find? (fun q => q.1.tag == "fend" || q.1.tag == "fabort") with
+      | none => []
+      | some (e, E) =>
+        let gots := mine.filter (fun q => q.2 < E && q.1.tag == "got")
+        if base < 0 then
+          fail (cnt ≤ n) s!"{what}: refused although count does not exceed the number of activities" ++
+          fail (e.tag != "fabort" || !gots.isEmpty) s!"{what}: count exceeds the number of activities but the iteration was not refused"
+        else
+          let acts := flowActs o i n base
+          let done := (acts.filter (fun x => match x.fin with | some f => f.2.2 == 0 | none => false)).mergeSort
+            (fun x y => (x.fin.map (·.1)).getD 0 ≤ (y.fin.map (·.1)).getD 0)
+          let expected := (done.take gots.length).map (·.value)
+          let failed := (acts.filterMap (fun x => x.fin.bind (fun f => if f.2.2 == 3 && f.1 < E then some f else none)))
+          let wanted : Nat := if brk ≥ 0 then min brk.toNat cnt else cnt
+          flowAborted what acts E e.time ++
+          fail (cnt > n) s!"{what}: count exceeds the number of activities but the iteration started" ++
+          fail (gots.map (fun g => arg g.1 0) != expected)
+            s!"{what}: yielded {gots.map (fun g => arg g.1 0)}, the results in order of completion are {done.map (·.value)}" ++
+          fail (gots.length > cnt) s!"{what}: yielded {gots.length} results" ++
+          fail (e.tag == "fend" && gots.length != wanted) s!"{what}: ended normally after {gots.length} results, expected {wanted}" ++
+          ((gots.zip done).flatMap (fun gd =>
+            let g := gd.1
+            let ready := (((mine.filter (·.2 < g.2)).getLast?).map (·.1.time)).getD b.time
+            match gd.2.fin with
+            | some f =>
+              fail (g.2 < f.1) s!"{what}: result of {gd.2.label} yielded before it was available" ++
+              fail (g.1.time != ratMax f.2.1 ready)
+                s!"{what}: result of {gd.2.label} available at {f.2.1}, consumer ready at {ready}, yielded at {g.1.time}"
+            | none => [])) ++
+          (match failed.head? with
+           | some f =>
+             -- (a failure in the very time step in which the consumer leaves the loop may go unnoticed)
+             fail (e.time != f.2.1) s!"{what}: an activity failed at {f.2.1} but the iteration went on until {e.time}"
+           | none => [])
+    else [])
+
 /-! ### C13 - pipes: the fluid model replayed over the implementation's trace -/
 
 /-- how far a completion may be from the fluid model's (floating point rounding of the
